@@ -64,6 +64,11 @@ func genC02(g *Gen, n int) {
 		}
 		c20Emit(g, op+h, true, "escape-spelled")
 	})
+	// the random stream keeps at least n/3 ops of its own, however large the sweeps above grow (today they are
+	// 8761 of the quick tier's 20000 ops, so this changes nothing)
+	if n < g.st.Ops+n/3 {
+		n = g.st.Ops + n/3
+	}
 	for g.st.Ops < n {
 		if g.Chance(6) {
 			c20LeafOps(g) // AutoQuote / Quote / Unquote / TrimSpace … on their own
